@@ -8,6 +8,8 @@ from harness.refmodel import ref_groups, ref_agg, freeze, same
 S = load()
 
 PROPERTY = "C12"
+LEVEL_TEXT = 'Exploration against a hand-built insertion-ordered partition with textbook aggregates; outputs located by content (no column-order assumption); recording apply functions; whole-column reductions vs single-group aggregate; PYTHONHASHSEED configurations.'
+LEVEL_NOTE = 'mean/stdev compared with relative tolerance 1e-9 (relaxed with data magnitude, never beyond 1e-3).'
 DESIGN_REF = "DESIGN.md §5 C12"
 ENGINE = "relational"
 TECHNIQUE = "property-based testing: generated tables / partitions / aggregate argument sets vs a hand-built insertion-ordered partition with textbook aggregates; corpus re-run under several PYTHONHASHSEED values"
